@@ -46,3 +46,19 @@ package definition
 //@ method (WireQualifier).Qualifier
 //@ pure
 //@ assigns nothing
+
+// Init methods (C05): AfterPropertiesSet strictly after the before-initialization processors, Init after
+// AfterPropertiesSet when the component has one; each advances the typestate of the component named CurName.
+//@ method (InitializingComponent).AfterPropertiesSet
+//@ property C05 C09
+//@ requires [after-before-processors] St[CurName] == 2
+//@ assigns St, ApsCalls, Failed
+//@ ensures [aps-done] St == store(old(St), CurName, 3) && ApsCalls == store(old(ApsCalls), CurName, old(ApsCalls[CurName]) + 1)
+//@ ensures [failure-recorded] Failed == (old(Failed) || result != nil)
+
+//@ method (InitializeComponent).Init
+//@ property C05 C09
+//@ requires [aps-then-init] St[CurName] == ite(implements(self, InitializingComponent), 3, 2)
+//@ assigns St, InitCalls, Failed
+//@ ensures [init-done] St == store(old(St), CurName, 4) && InitCalls == store(old(InitCalls), CurName, old(InitCalls[CurName]) + 1)
+//@ ensures [failure-recorded] Failed == (old(Failed) || result != nil)
